@@ -776,3 +776,255 @@ Qed.
 
 Theorem rule_fb_call_codes fs d : In d (rule_fb_call fs) -> code_allowed "rule_function_block_invocation" (fst d).
 Proof. apply fb_walk_codes. Qed.
+
+(* ---- xform_resolve_late_bound_type_initializer ---- *)
+Local Open Scope nat_scope.
+Definition decl_of (f : tfact) : list (text * tkind) :=
+  match f with
+  | TDecl n TkLateBound _ => []
+  | TDecl n k _ => [(key n, k)]
+  | TInit _ _ _ => []
+  end.
+Definition decls (fs : list tfact) : list (text * tkind) := flat_map decl_of fs.
+
+Lemma tlookup_none k m : tlookup k m = None <-> ~ In k (map fst m).
+Proof.
+  induction m as [|[k' d] m IH]; cbn [tlookup map fst In]; [split; [intros _ [] | reflexivity]|].
+  destruct (text_eqb k k') eqn:E.
+  - apply text_eqb_eq in E. subst. split; [discriminate | intro H; contradiction H; left; reflexivity].
+  - rewrite IH. split.
+    + intros H [<- | Hin]; [rewrite text_eqb_refl in E; discriminate | exact (H Hin)].
+    + intros H Hin. apply H. right. exact Hin.
+Qed.
+
+Lemma NoDup_app_snoc {A} (l : list A) x : NoDup l -> ~ In x l -> NoDup (l ++ [x]).
+Proof.
+  induction 1 as [|y l Hy Hnd IH]; intro Hx; cbn [app].
+  - constructor; [intros [] | constructor].
+  - constructor.
+    + intro Hin. apply in_app_or in Hin. destruct Hin as [Hin | [<- | []]]; [exact (Hy Hin) | apply Hx; left; reflexivity].
+    + apply IH. intro Hin. apply Hx. right. exact Hin.
+Qed.
+
+(* the table is the list of the declared types when their names are distinct; otherwise the walk stops at a duplicate *)
+Lemma type_table_spec : forall fs acc,
+  match type_table fs acc with
+  | inl tab => tab = acc ++ decls fs /\ (NoDup (map fst acc) -> NoDup (map fst tab))
+  | inr d => fst d = P_DefinitionNameDuplicated /\ ~ NoDup (map fst (acc ++ decls fs))
+  end.
+Proof.
+  induction fs as [|f fs IH]; intro acc; cbn [type_table].
+  - unfold decls. cbn [flat_map]. rewrite app_nil_r. split; [reflexivity | exact (fun H => H)].
+  - assert (Skip : decl_of f = [] -> match type_table fs acc with
+                     | inl tab => tab = acc ++ decls (f :: fs) /\ (NoDup (map fst acc) -> NoDup (map fst tab))
+                     | inr d => fst d = P_DefinitionNameDuplicated /\ ~ NoDup (map fst (acc ++ decls (f :: fs)))
+                     end).
+    { intro E. unfold decls. cbn [flat_map]. rewrite E. cbn [app]. apply IH. }
+    destruct f as [n k pos|k ty pos]; [|apply Skip; reflexivity].
+    assert (Add : forall k0, decl_of (TDecl n k0 pos) = [(key n, k0)] ->
+                  match (match tlookup (key n) acc with Some _ => inr (P_DefinitionNameDuplicated, pos) | None => type_table fs (acc ++ [(key n, k0)]) end) with
+                  | inl tab => tab = acc ++ decls (TDecl n k0 pos :: fs) /\ (NoDup (map fst acc) -> NoDup (map fst tab))
+                  | inr d => fst d = P_DefinitionNameDuplicated /\ ~ NoDup (map fst (acc ++ decls (TDecl n k0 pos :: fs)))
+                  end).
+    { intros k0 E. unfold decls. cbn [flat_map]. rewrite E. cbn [app]. fold (decls fs).
+      destruct (tlookup (key n) acc) as [d|] eqn:L.
+      - split; [reflexivity|]. intro Hnd. rewrite map_app in Hnd. cbn [map fst] in Hnd.
+        apply NoDup_remove_2 in Hnd. apply Hnd. apply in_or_app. left.
+        destruct (in_dec (list_eq_dec N.eq_dec) (key n) (map fst acc)) as [Hin|Hn]; [exact Hin|].
+        apply tlookup_none in Hn. rewrite Hn in L. discriminate.
+      - specialize (IH (acc ++ [(key n, k0)])). rewrite <- app_assoc in IH. cbn [app] in IH.
+        destruct (type_table fs (acc ++ [(key n, k0)])) as [tab|d].
+        + destruct IH as (E1 & E2). split; [exact E1|]. intro Hnd. apply E2. rewrite map_app. cbn [map fst].
+          apply NoDup_app_snoc; [exact Hnd|]. apply tlookup_none. exact L.
+        + exact IH. }
+    destruct k; try (apply Add; reflexivity). apply Skip. reflexivity.
+Qed.
+
+Definition new_kind (tab : list (text * tkind)) (f : tfact) : list ikind :=
+  match f with
+  | TInit IkLate ty _ => match resolve1 tab ty with RKind k => [k] | _ => [IkLate] end
+  | TInit k _ _ => [k]
+  | TDecl _ _ _ => []
+  end.
+Definition undeclared_diag (tab : list (text * tkind)) (f : tfact) : list diag :=
+  match f with
+  | TInit IkLate ty pos => match resolve1 tab ty with RUndeclared => [(P_UndeclaredUnknownType, pos)] | _ => [] end
+  | _ => []
+  end.
+Definition no_rtodo (tab : list (text * tkind)) (fs : list tfact) : Prop :=
+  forall ty pos, In (TInit IkLate ty pos) fs -> resolve1 tab ty <> RTodo.
+
+Definition answer (ds : list diag) (ks : list ikind) : list ikind + list diag :=
+  match ds with [] => inl ks | _ => inr ds end.
+
+Lemma answer_snoc ds d ks : answer (ds ++ [d]) ks = inr (ds ++ [d]).
+Proof. unfold answer. destruct (ds ++ [d]) eqn:E; [destruct ds; discriminate | reflexivity]. Qed.
+
+Lemma resolve_go_spec tab : forall fs ds ks, no_rtodo tab fs ->
+  resolve_go tab fs ds ks = answer (rev ds ++ flat_map (undeclared_diag tab) fs) (rev ks ++ flat_map (new_kind tab) fs).
+Proof.
+  induction fs as [|f fs IH]; intros ds ks Hn.
+  - cbn [resolve_go flat_map]. rewrite !app_nil_r. destruct ds as [|d ds]; [reflexivity|]. cbn [rev]. rewrite answer_snoc. reflexivity.
+  - assert (Hn' : no_rtodo tab fs) by (intros ty pos H; apply (Hn ty pos); right; exact H).
+    destruct f as [n k pos|k ty pos].
+    + cbn [resolve_go flat_map undeclared_diag new_kind app]. apply IH. exact Hn'.
+    + destruct k; cbn [resolve_go flat_map undeclared_diag new_kind app];
+        try (rewrite IH by exact Hn'; cbn [rev]; rewrite <- app_assoc; reflexivity).
+      destruct (resolve1 tab ty) eqn:E.
+      * rewrite IH by exact Hn'. cbn [rev app]. rewrite <- app_assoc. reflexivity.
+      * rewrite IH by exact Hn'. cbn [rev app]. rewrite <- !app_assoc. reflexivity.
+      * exfalso. exact (Hn ty pos (or_introl eq_refl) E).
+Qed.
+
+(* with distinct type names and no type of a kind the transformation does not handle: the answer is the list of the new
+   initializer kinds, or the list of ALL references to undeclared types, in order *)
+Theorem xform_type_init_spec fs : NoDup (map fst (decls fs)) -> no_rtodo (decls fs) fs ->
+  xform_type_init fs = answer (flat_map (undeclared_diag (decls fs)) fs) (flat_map (new_kind (decls fs)) fs).
+Proof.
+  intros Hnd Hn. unfold xform_type_init. pose proof (type_table_spec fs []) as S.
+  destruct (type_table fs []) as [tab|d].
+  - destruct S as (-> & _). cbn [app]. rewrite resolve_go_spec by exact Hn. reflexivity.
+  - destruct S as (_ & S). contradiction.
+Qed.
+
+(* two declarations of one type name are diagnosed (P0020), never collapsed into one *)
+Theorem xform_type_init_duplicate fs : ~ NoDup (map fst (decls fs)) ->
+  exists d, xform_type_init fs = inr [d] /\ fst d = P_DefinitionNameDuplicated.
+Proof.
+  intro Hd. unfold xform_type_init. pose proof (type_table_spec fs []) as S.
+  destruct (type_table fs []) as [tab|d].
+  - destruct S as (-> & S). exfalso. apply Hd. apply S. constructor.
+  - exists d. split; [reflexivity | exact (proj1 S)].
+Qed.
+
+(* what 'undeclared' means *)
+Lemma resolve1_undeclared tab ty :
+  resolve1 tab ty = RUndeclared <->
+  ~ In (key ty) elementary_types /\ ~ In (key ty) unsupported_types /\ ~ In (key ty) (map fst tab).
+Proof.
+  unfold resolve1. destruct (mem (key ty) elementary_types) eqn:E1.
+  - split; [discriminate|]. intros (H & _). apply mem_In in E1. contradiction.
+  - destruct (mem (key ty) unsupported_types) eqn:E2.
+    + split; [discriminate|]. intros (_ & H & _). apply mem_In in E2. contradiction.
+    + apply mem_false in E1. apply mem_false in E2. destruct (tlookup (key ty) tab) as [k|] eqn:L.
+      * split; [destruct k; discriminate|]. intros (_ & _ & H). apply tlookup_none in H. rewrite H in L. discriminate.
+      * apply tlookup_none in L. split; [intros _; auto | reflexivity].
+Qed.
+
+(* accepted exactly when every referenced type is elementary, a standard function block, or declared *)
+Theorem xform_type_init_accepts fs : NoDup (map fst (decls fs)) -> no_rtodo (decls fs) fs ->
+  ((exists ks, xform_type_init fs = inl ks) <->
+   forall ty pos, In (TInit IkLate ty pos) fs -> resolve1 (decls fs) ty <> RUndeclared).
+Proof.
+  intros Hnd Hn. rewrite (xform_type_init_spec fs Hnd Hn). unfold answer. split.
+  - intros (ks & H) ty pos Hin E.
+    assert (X : In (P_UndeclaredUnknownType, pos) (flat_map (undeclared_diag (decls fs)) fs)).
+    { apply in_flat_map. exists (TInit IkLate ty pos). split; [exact Hin|]. cbn [undeclared_diag]. rewrite E. left. reflexivity. }
+    destruct (flat_map (undeclared_diag (decls fs)) fs); [contradiction X | discriminate H].
+  - intro H. assert (X : flat_map (undeclared_diag (decls fs)) fs = []).
+    { apply flat_map_nil. intros [n k pos|k ty pos] Hin; [reflexivity|]. destruct k; try reflexivity. cbn [undeclared_diag].
+      destruct (resolve1 (decls fs) ty) eqn:E; try reflexivity. exfalso. exact (H ty pos Hin E). }
+    rewrite X. eexists. reflexivity.
+Qed.
+
+(* every reference to an undeclared type is reported, whatever else the library holds: none hides another *)
+Theorem xform_type_init_reports fs ty pos : NoDup (map fst (decls fs)) -> no_rtodo (decls fs) fs ->
+  In (TInit IkLate ty pos) fs -> resolve1 (decls fs) ty = RUndeclared ->
+  exists ds, xform_type_init fs = inr ds /\ In (P_UndeclaredUnknownType, pos) ds.
+Proof.
+  intros Hnd Hn Hin E. rewrite (xform_type_init_spec fs Hnd Hn).
+  assert (X : In (P_UndeclaredUnknownType, pos) (flat_map (undeclared_diag (decls fs)) fs)).
+  { apply in_flat_map. exists (TInit IkLate ty pos). split; [exact Hin|]. cbn [undeclared_diag]. rewrite E. left. reflexivity. }
+  unfold answer. destruct (flat_map (undeclared_diag (decls fs)) fs) as [|d l]; [contradiction X|]. eexists. split; [reflexivity | exact X].
+Qed.
+
+(* the order of the declarations and of the references plays no role *)
+Lemma tlookup_In m : NoDup (map fst m) -> forall k d, tlookup k m = Some d <-> In (k, d) m.
+Proof.
+  induction m as [|[k' d'] m IH]; intros Hnd k d; cbn [tlookup In].
+  - split; [discriminate | intros []].
+  - cbn [map fst] in Hnd. inversion Hnd as [|x l Hn Hnd']; subst. destruct (text_eqb k k') eqn:E.
+    + apply text_eqb_eq in E. subst k'. split.
+      * intros [= <-]. left. reflexivity.
+      * intros [[= <-] | Hin]; [reflexivity|]. exfalso. apply Hn. apply in_map_iff. exists (k, d). split; [reflexivity | exact Hin].
+    + rewrite (IH Hnd' k d). split; [intro H; right; exact H|]. intros [[= <- <-] | Hin]; [|exact Hin].
+      rewrite text_eqb_refl in E. discriminate.
+Qed.
+
+Lemma tlookup_perm m m' : Permutation m m' -> NoDup (map fst m) -> forall k, tlookup k m = tlookup k m'.
+Proof.
+  intros P Hnd k.
+  assert (Hnd' : NoDup (map fst m')) by (eapply Permutation_NoDup; [apply Permutation_map; exact P | exact Hnd]).
+  destruct (tlookup k m) as [d|] eqn:E.
+  - symmetry. apply (tlookup_In m' Hnd'). eapply Permutation_in; [exact P|]. apply (tlookup_In m Hnd). exact E.
+  - destruct (tlookup k m') as [d'|] eqn:E'; [|reflexivity].
+    apply (tlookup_In m' Hnd') in E'. apply (Permutation_in _ (Permutation_sym P)) in E'. apply (tlookup_In m Hnd) in E'.
+    rewrite E in E'. discriminate.
+Qed.
+
+Lemma resolve1_ext tab tab' ty : (forall k, tlookup k tab = tlookup k tab') -> resolve1 tab ty = resolve1 tab' ty.
+Proof. intro H. unfold resolve1. rewrite H. reflexivity. Qed.
+
+Theorem xform_type_init_perm fs fs' : Permutation fs fs' -> NoDup (map fst (decls fs)) -> no_rtodo (decls fs) fs ->
+  match xform_type_init fs, xform_type_init fs' with
+  | inl ks, inl ks' => Permutation ks ks'
+  | inr ds, inr ds' => Permutation ds ds'
+  | _, _ => False
+  end.
+Proof.
+  intros P Hnd Hn.
+  assert (Pd : Permutation (decls fs) (decls fs')) by (apply flat_map_perm; exact P).
+  assert (Hnd' : NoDup (map fst (decls fs'))) by (eapply Permutation_NoDup; [apply Permutation_map; exact Pd | exact Hnd]).
+  pose proof (tlookup_perm _ _ Pd Hnd) as L.
+  assert (R : forall ty, resolve1 (decls fs) ty = resolve1 (decls fs') ty) by (intro ty; apply resolve1_ext; exact L).
+  assert (Hn' : no_rtodo (decls fs') fs').
+  { intros ty pos Hin. rewrite <- R. apply (Hn ty pos). eapply Permutation_in; [apply Permutation_sym; exact P | exact Hin]. }
+  rewrite (xform_type_init_spec fs Hnd Hn), (xform_type_init_spec fs' Hnd' Hn').
+  assert (EU : forall f, undeclared_diag (decls fs') f = undeclared_diag (decls fs) f).
+  { intros [n k pos|k ty pos]; [reflexivity|]. destruct k; try reflexivity. cbn [undeclared_diag]. rewrite R. reflexivity. }
+  assert (EK : forall f, new_kind (decls fs') f = new_kind (decls fs) f).
+  { intros [n k pos|k ty pos]; [reflexivity|]. destruct k; try reflexivity. cbn [new_kind]. rewrite R. reflexivity. }
+  rewrite (flat_map_ext _ _ EU), (flat_map_ext _ _ EK).
+  pose proof (flat_map_perm (undeclared_diag (decls fs)) _ _ P) as PU.
+  pose proof (flat_map_perm (new_kind (decls fs)) _ _ P) as PK.
+  unfold answer.
+  destruct (flat_map (undeclared_diag (decls fs)) fs) as [|d l] eqn:E1; destruct (flat_map (undeclared_diag (decls fs)) fs') as [|d' l'] eqn:E2.
+  - exact PK.
+  - apply Permutation_nil in PU. discriminate PU.
+  - apply Permutation_sym, Permutation_nil in PU. discriminate PU.
+  - exact PU.
+Qed.
+
+(* the transformation model reports only problems the module names *)
+Theorem xform_type_init_codes fs ds d : xform_type_init fs = inr ds -> In d ds ->
+  In (fst d) [P_DefinitionNameDuplicated; P_UndeclaredUnknownType; P_NotImplemented].
+Proof.
+  unfold xform_type_init. pose proof (type_table_spec fs []) as S. destruct (type_table fs []) as [tab|d0].
+  - clear S. assert (G : forall fs ds0 ks ds1, (forall x, In x ds0 -> fst x = P_UndeclaredUnknownType) ->
+                       resolve_go tab fs ds0 ks = inr ds1 -> forall x, In x ds1 -> fst x = P_UndeclaredUnknownType \/ fst x = P_NotImplemented).
+    { induction fs0 as [|f fs0 IH]; intros ds0 ks ds1 H0; cbn [resolve_go].
+      - destruct ds0 as [|d1 ds0]; [discriminate|]. intros [= <-] x Hx. left. apply H0. apply in_rev. exact Hx.
+      - destruct f as [n k pos|k ty pos]; [apply IH; exact H0|].
+        destruct k; try (apply IH; exact H0).
+        destruct (resolve1 tab ty).
+        + apply IH. exact H0.
+        + apply IH. intros x [<- | Hx]; [reflexivity | apply H0; exact Hx].
+        + destruct ds0 as [|d1 ds0].
+          * intros [= <-] x [<- | []]. right. reflexivity.
+          * intros [= <-] x Hx. left. apply H0. apply in_rev. exact Hx. }
+    intros H Hin. destruct (G fs [] [] ds (fun x (Hx : In x []) => match Hx with end) H d Hin) as [E|E]; rewrite E; cbn; auto.
+  - intros [= <-] [<- | []]. rewrite (proj1 S). cbn. auto.
+Qed.
+
+Example ex_type_resolution :
+  let fs := [TDecl [84; 97]%N TkEnum 1%N; TDecl [70]%N TkFB 2%N; TInit IkLate [116; 65]%N 3%N; TInit IkLate [102]%N 4%N;
+             TInit IkLate [105; 110; 116]%N 5%N; TInit IkLate [84; 79; 78]%N 6%N; TInit IkSimple [] 0%N] in
+  xform_type_init fs = inl [IkEnumType; IkFB; IkSimple; IkFB; IkSimple] /\
+  xform_type_init (fs ++ [TInit IkLate [120]%N 9%N; TInit IkLate [121]%N 10%N]) = inr [(P_UndeclaredUnknownType, 9%N); (P_UndeclaredUnknownType, 10%N)] /\
+  xform_type_init (fs ++ [TDecl [116; 97]%N TkStruct 11%N]) = inr [(P_DefinitionNameDuplicated, 11%N)] /\
+  NoDup (map fst (decls fs)) /\ no_rtodo (decls fs) fs.
+Proof.
+  cbn zeta. split; [vm_compute; reflexivity|]. split; [vm_compute; reflexivity|]. split; [vm_compute; reflexivity|]. split.
+  - vm_compute. repeat constructor; cbn; intuition discriminate.
+  - intros ty pos [H|[H|[H|[H|[H|[H|[H|[]]]]]]]]; try discriminate H; injection H as <- <-; vm_compute; discriminate.
+Qed.
